@@ -42,6 +42,12 @@ CHECKS["C10"] = ("exploration", "model-based history PBT vs functools.lru_cache 
 CHECKS["C16"] = ("exploration", "model-based history PBT vs itertools.groupby (advance groupby / advance any previously returned group)",
   "Generated items (equal-yet-distinguishable keys), key absent/sync/async, four source flavours and histories of up to 15 advance operations on the groupby and on any previously returned group handle are mirrored on itertools.groupby; key, item identity or stop must agree after every operation.",
   "reflexive key equality; CPython 3.12 itertools.groupby is the oracle", "4/C16")
+CHECKS["C13"] = ("exploration", "exhaustive enumeration of the 864-program table, differential vs contextlib.asynccontextmanager; Hypothesis variations on top",
+  "All 3x12x3x8 generator programs x block outcomes of the quantifier (each with and without suspensions inside the generator) are run through contextmanager and through contextlib.asynccontextmanager: bound value, generator event log and outcome class (block's object / planned other / suppressed / protocol RuntimeError) must agree; the GeneratorExit rows are compared with an independent model of the documented deviation.",
+  "CPython 3.12 contextlib is the oracle; exceptions compared by role, not message", "4/C13")
+CHECKS["C14"] = ("exploration", "differential program PBT vs genuinely nested async-with statements (complete for <= 2 entries) plus run-once histories; hang watchdog",
+  "ExitStack programs (7 entry kinds x 5-6 behaviours x block outcome; every program with <= 2 entries enumerated, 3-4 entries sampled) are compared with the same entries written as nested with statements: order of exits, the exception object each receives, callback arguments, final outcome. Generated register/aclose/pop_all/leave/unwind-again histories check that every registered exit runs exactly once overall. Non-termination is detected by a per-case watchdog with isolated re-run.",
+  "__context__ chains are not compared; exits never re-raise an older exception of the chain", "4/C14")
 REASONS = {}
 props = [json.loads(l)["id"] for l in open(os.path.join(HERE, "properties.jsonl"))]
 checks = []
